@@ -267,6 +267,19 @@ mod verif_bounded {
             same(label, &scen, "lookup with `_` in the needle", m.find_message_epoch_by_tag_content(&gid(1), "x a_cd").unwrap(), s.find_message_epoch_by_tag_content(&gid(1), "x a_cd").unwrap());
             same(label, &scen, "lookup with the empty needle", m.find_message_epoch_by_tag_content(&gid(1), "").unwrap().is_some(), s.find_message_epoch_by_tag_content(&gid(1), "").unwrap().is_some());
         }
+        // the same file announced twice in one group, once by a message stored WITHOUT an epoch: the announcement that has an epoch is the
+        // hint ("Some(epoch) if a matching message with a non-null epoch exists"), whichever of the two has the smaller id / was saved first
+        for (id_none, id_some) in [(5u8, 6u8), (6, 5)] { for none_first in [true, false] {
+            let (m, s) = stores();
+            m.save_group(group(1, 1)).unwrap(); s.save_group(group(1, 1)).unwrap();
+            let n = msg(1, id_none, 10, 10, None, MessageState::Processed, "c", tag("eeee"));
+            let e = msg(1, id_some, 10, 10, Some(4), MessageState::Processed, "c", tag("eeee"));
+            let seq = if none_first { vec![n.clone(), e.clone()] } else { vec![e.clone(), n.clone()] };
+            for x in seq { m.save_message(x.clone()).unwrap(); s.save_message(x).unwrap(); }
+            let scen = format!("g1 holds two announcements of file eeee: message {id_none} without epoch, message {id_some} in epoch 4 (the one without epoch saved {})", if none_first { "first" } else { "last" });
+            expect(label, &scen, "find_message_epoch_by_tag_content(g1, \"x eeee\")", "SQLite", s.find_message_epoch_by_tag_content(&gid(1), "x eeee").unwrap(), Some(4));
+            expect(label, &scen, "find_message_epoch_by_tag_content(g1, \"x eeee\")", "memory", m.find_message_epoch_by_tag_content(&gid(1), "x eeee").unwrap(), Some(4));
+        } }
     }
 
     // C20 / C01: snapshots keep their age across a rollback of a sibling, a rollback restores the group's rows and leaves the other group
